@@ -23,15 +23,20 @@ def jobs(tier):
         for nargs in range(4):
             if nargs > len(sig) + 1:
                 continue
-            params = [(f"s{n}", "int") for n in range(nargs)] + [("v", "int"), ("xi", "int")]
-            pre = [f"0 <= s{n} < {NSEL}" for n in range(nargs)] + ["-2 <= v <= 9", "0 <= xi <= 2" if q else "0 <= xi <= 4"]
+            params = [(f"s{n}", "int") for n in range(nargs)] + [("xi", "int")] + ([] if q else [("v", "int")])
+            pre = [f"0 <= s{n} < {NSEL}" for n in range(nargs)] + ["0 <= xi <= 2" if q else "0 <= xi <= 4"] + ([] if q else ["-2 <= v <= 9"])
             if nargs == 3:
                 pre.append("s2 == 0 or s2 == 3 or s2 == 12")
+            if q and nargs >= 2:
+                # quick: the second argument ranges over six representative kinds
+                pre.append("s1 == 0 or s1 == 2 or s1 == 3 or s1 == 4 or s1 == 10 or s1 == 12")
             fixed = {"k0": k[0], "k1": k[1], "k2": k[2], "nparams": len(sig), "nargs": nargs}
+            if q:
+                fixed["v"] = 1
             for n in range(nargs, 3):
                 fixed[f"s{n}"] = 0
             out.append(CH(name="c18_call_" + ("".join(map(str, sig)) or "none") + f"_n{nargs}", base="c18_call", func=f"{H}:c18_call", params=params, pre=pre, fixed=fixed,
-                          timeout=600 if q else 2400, functions=F,
+                          timeout=600 if q else 2400, functions=F, twin=(nargs == len(sig)),
                           note="accepted <=> arity matches and every argument fits its parameter kind; positional, keyword and reordered keyword calls agree and give equal statements"))
     for w in range(4):
         out.append(CH(name=f"c18_idle_{w}", base="c18_idle", func=f"{H}:c18_idle", params=[("v", "int")], pre=["0 <= v <= 20"], fixed={"which": w}, timeout=200,
